@@ -39,13 +39,6 @@ theorem C16_gen_timeout_path :
     Gen.Session.timeoutSessionCalls =
       ["self.parent.terminal._connections.pop", "self.remote_sessions.pop", "self.sys_log.info",
        "software_manager.send_payload_to_session_manager"] ∧
-    Gen.Session.preTimestepBody =
-      ["self.current_timestep = timestep", "inactive_sessions: list = []", "if self.local_session:",
-       "if self.local_session.last_active_step + self.local_session_timeout_steps <= timestep:",
-       "inactive_sessions.append(self.local_session)", "for session in self.remote_sessions:",
-       "remote_session = self.remote_sessions[session]",
-       "if remote_session.last_active_step + self.remote_session_timeout_steps <= timestep:",
-       "inactive_sessions.append(remote_session)", "for sessions in inactive_sessions:", "self._timeout_session(sessions)"] ∧
     Gen.Session.nodePreTimestep =
       ["super().pre_timestep(timestep)", "for network_interface in self.network_interfaces.values():",
        "network_interface.pre_timestep(timestep=timestep)", "for process_id in self.processes:",
